@@ -42,6 +42,7 @@ const (
 	ACancel
 	ASetQid
 	AExpire
+	ARunt // UDP: a datagram shorter than a DNS header (Tag = its length, 1..11)
 )
 
 type Action struct {
@@ -111,6 +112,8 @@ func (a Action) Coq() string {
 		return hx.App("ASetQid", hx.Ni(int(a.Wid)))
 	case AExpire:
 		return "AExpire"
+	case ARunt:
+		return hx.App("ARunt", hx.Ni(a.Tag))
 	}
 	return "?"
 }
@@ -362,6 +365,7 @@ const waitReturn = 3 * time.Second
 // View is what a script generator may look at to pick the next action.
 type View struct {
 	QidForced bool
+	TCP       bool
 	St        map[int]callState
 	Wid       map[int]uint16
 	Cancel    map[int]bool
@@ -431,6 +435,8 @@ func (v *View) Applicable(a Action) bool {
 		return !v.Closed && !v.ReadErr && widFree(a.Wid, -1)
 	case AFeedErr, AExpire:
 		return !v.Closed && !v.ReadErr
+	case ARunt:
+		return !v.TCP && !v.Closed && !v.ReadErr && a.Tag >= 1 && a.Tag <= 11
 	case AClose:
 		return !v.Closed
 	case ACancel:
@@ -546,7 +552,7 @@ func Run(s Script, next func(v *View) *Action) (Script, []Obs, Final) {
 	}
 
 	view := func() *View {
-		v := &View{St: map[int]callState{}, Wid: map[int]uint16{}, Cancel: map[int]bool{}, Closed: fc.isClosed(), Steps: len(s.Actions), QidForced: qidForced}
+		v := &View{St: map[int]callState{}, Wid: map[int]uint16{}, Cancel: map[int]bool{}, Closed: fc.isClosed(), Steps: len(s.Actions), QidForced: qidForced, TCP: s.TCP}
 		fc.mu.Lock()
 		v.ReadErr = fc.readErr != nil
 		fc.mu.Unlock()
@@ -664,6 +670,10 @@ func Run(s Script, next func(v *View) *Action) (Script, []Obs, Final) {
 			}
 			fc.feed(replyFrame(s.TCP, wid, a.Tag))
 			frameAfterSend = true
+			idleSeen++
+			fc.waitIdle(idleSeen, waitReturn)
+		case ARunt:
+			fc.feed(make([]byte, a.Tag))
 			idleSeen++
 			fc.waitIdle(idleSeen, waitReturn)
 		case AFeedErr:
